@@ -9,6 +9,7 @@ for d in /verif/seeded/*/; do
   n=$(basename "$d"); id=${n%%-*}
   other=$(jq -r '.detected_by_check_of // empty' "$d/meta.json" 2>/dev/null); [ -n "$other" ] && id=$other
   if [ -n "$(jq -r '.not_flagged_on_purpose // empty' "$d/meta.json" 2>/dev/null)" ]; then echo "$n: skipped (deliberately not flagged, see meta.json)"; continue; fi
+  if [ -n "$(jq -r '.superseded_by_fix // empty' "$d/meta.json" 2>/dev/null)" ]; then echo "$n: skipped (no longer breaks the property since a repair, see meta.json)"; continue; fi
   if ! git apply "$d/patch.diff" 2>/dev/null; then echo "$n: PATCH DOES NOT APPLY"; bad=$((bad+1)); continue; fi
   out=$(/verif/bin/check "$id" --tier "$tier" 2>&1); code=$?
   git checkout -- . ; git clean -fdq -e target
